@@ -53,7 +53,7 @@ def tlc_rows(ctx, jobs, tags, timeout=900, heap="2g"):
     return rows
 
 
-def judge_records(ctx, module, path, parts=PAR, timeout=900):
+def judge_records(ctx, module, path, consts="", parts=PAR, timeout=900):
     """TLC (module <module>, INIT TInit / NEXT TNext / POSTCONDITION Accepted) judges every line of the NDJSON
     file; returns (n_records, [(record, want)], states)"""
     sd = ctx.spec(SUB)
@@ -72,7 +72,7 @@ def judge_records(ctx, module, path, parts=PAR, timeout=900):
 
     def one(item):
         p, chunk = item
-        return item, tlc.run(sd, module, "INIT TInit\nNEXT TNext\nPOSTCONDITION Accepted\n", timeout=timeout, workers=1,
+        return item, tlc.run(sd, module, "INIT TInit\nNEXT TNext\nPOSTCONDITION Accepted\n" + consts, timeout=timeout, workers=1,
                              heap="2g", extra_files={"records.ndjson": p})
 
     with ThreadPoolExecutor(max_workers=PAR) as ex:
@@ -164,8 +164,9 @@ class RecordsUnit(Unit):
     """code -> model.  The harness command writes NDJSON records of real calls; TLC judges each with
     <module>!Good; classify(rec, want) -> (sig, text, case) names the failing class."""
 
-    def __init__(self, name, command, module, classify, n=(1500, 20000), timeout=1200):
+    def __init__(self, name, command, module, classify, n=(1500, 20000), timeout=1200, consts=""):
         self.name, self.command, self.module, self.classify, self.n, self.timeout = name, command, module, classify, n, timeout
+        self.consts = consts
         self.info = {}
 
     def summary(self):
@@ -177,7 +178,7 @@ class RecordsUnit(Unit):
         p = run_h(ctx, [self.command, "-seed", str(ctx.seed), "-n", str(n), "-out", path], timeout=self.timeout)
         if p.returncode != 0:
             raise Inconclusive("harness %s died: %s" % (self.command, (p.stderr or p.stdout)[-1500:]))
-        total, bad, states = judge_records(ctx, self.module, path, timeout=self.timeout)
+        total, bad, states = judge_records(ctx, self.module, path, consts=self.consts, timeout=self.timeout)
         groups = {}
         for rec, want in bad:
             sig, text, case = self.classify(rec, want)
@@ -208,14 +209,22 @@ STREAM_READER = {"Num": "Read", "Bool": "Read", "Bytes": "ReadBytes", "BytesSz":
                  "ObjSz": "ReadObjectWithSize", "Coll": "ReadCollection", "Peek": "PeekSize"}
 
 
-def stream_gen_cfg(L, what, kinds):
-    return ("INIT GInit\nNEXT GNext\nCONSTANTS\n Mode = \"total\"\n MaxChunk = 6\n L = %d\n Alphabet = %s\n Discipline = \"full\"\n"
-            " GenMaxLen = 8\n GenWhat = \"%s\"\n GenKinds = {%s}\n" % (L, ALPHABET, what, ", ".join('"%s"' % k for k in kinds)))
+STREAM_CONSTS = "CONSTANTS\n Mode = \"total\"\n MaxChunk = 6\n L = %d\n Alphabet = %s\n Discipline = \"full\"\n"
+
+
+def stream_gen_cfg(L, what, kinds, widths=(0, 1, 2, 3, 4, 5, 8, 32)):
+    return ("INIT GInit\nNEXT GNext\n" + STREAM_CONSTS % (L, ALPHABET) +
+            " GenMaxLen = 8\n GenWhat = \"%s\"\n GenKinds = {%s}\n GenA = {%s}\n" % (
+                what, ", ".join('"%s"' % k for k in kinds), ", ".join(str(w) for w in widths)))
 
 
 def stream_gen(ctx):
     jobs = [("stream.rt", "StreamGen", stream_gen_cfg(6, "rt", STREAM_KINDS))]
-    jobs += [("stream.tot." + k, "StreamGen", stream_gen_cfg(6, "tot", [k])) for k in STREAM_KINDS]
+    for k in STREAM_KINDS:
+        if k in ("BytesSz", "ObjSz", "Coll", "Peek"):
+            jobs += [("stream.tot.%s%d" % (k, w), "StreamGen", stream_gen_cfg(6, "tot", [k], [w])) for w in (1, 2, 4, 8)]
+        else:
+            jobs.append(("stream.tot." + k, "StreamGen", stream_gen_cfg(6, "tot", [k])))
     rows = tlc_rows(ctx, jobs, ["RT", "CHUNKS", "TOT"])
     return {"rt": rows["RT"] + rows["CHUNKS"], "tot": rows["TOT"]}
 
@@ -256,7 +265,8 @@ def stream_units():
         "mc_tot": McUnit(SUB, "Stream", cfgkind="total", name="Stream:mc:total-all-strings"),
         "mc_neg": McUnit(SUB, "Stream", cfgkind="single", name="Stream:mc:single-read-control", expect="RoundTrip"),
         "table": TableUnit("Stream:table", "stream-table", stream_gen, expect_rows=lambda ctx: 29 * 5461 + 100),
-        "records": RecordsUnit("Stream:records", "stream-records", "StreamTrace", stream_classify, n=(1500, 20000)),
+        "records": RecordsUnit("Stream:records", "stream-records", "StreamTrace", stream_classify, n=(1500, 20000),
+                               consts=STREAM_CONSTS % (0, "{0}")),
     }
 
 
